@@ -25,6 +25,7 @@ import (
 )
 
 type Clause struct {
+	Loc   *Node // onwrite: the watched location
 	Kind  string // requires ensures invariant modifies assume
 	Label string
 	Text  string
@@ -57,6 +58,9 @@ type FuncSpec struct {
 	Pure     bool
 	Assumed  bool
 	Conc     bool
+	ConcProps []string  // properties under which the function is verified in thread-modular (volatile) mode
+	Shared   []*Clause // shared locations: may change before every atomic access in that mode
+	OnWrites []*Clause // onwrite[label] loc: cond — checked right after each atomic write to loc (new/prev bound)
 	IsIface  bool
 	Stable   bool // pure and independent of the heap (function of receiver and arguments only)
 	IsCallback bool
@@ -133,7 +137,7 @@ func newSpecDB0() *SpecDB {
 }
 
 var clauseKw = map[string]bool{"requires": true, "ensures": true, "modifies": true, "panics": true, "props": true,
-	"loop": true, "invariant": true, "pure": true, "stable": true, "assumed": true, "concurrent": true, "noinline": true, "unroll": true, "let": true, "decreases": true, "witness": true, "replay": true, "case": true, "use": true, "objinv": true, "sets": true}
+	"loop": true, "invariant": true, "pure": true, "stable": true, "assumed": true, "concurrent": true, "noinline": true, "unroll": true, "let": true, "decreases": true, "witness": true, "replay": true, "case": true, "use": true, "objinv": true, "sets": true, "shared": true, "onwrite": true}
 var topKw = map[string]bool{"ilemma": true, "func": true, "iface": true, "callback": true, "ghost": true, "spec": true, "lemma": true}
 
 func firstWord(s string) (string, string) {
@@ -347,6 +351,34 @@ func (db *SpecDB) loadFile(path, pkgPath string) error {
 				cur.Assumed = true
 			case "concurrent":
 				cur.Conc = true
+				for _, p := range strings.Split(rest, ",") {
+					if p = strings.TrimSpace(p); p != "" {
+						cur.ConcProps = append(cur.ConcProps, p)
+					}
+				}
+			case "shared":
+				for _, part := range splitTop(strings.TrimSpace(rest)) {
+					e, err := parseExpr(part)
+					if err != nil {
+						return fail(err.Error())
+					}
+					cur.Shared = append(cur.Shared, &Clause{Kind: "shared", Text: part, Expr: e, Line: it.line, File: path})
+				}
+			case "onwrite":
+				label, props, body := parseLabel(rest)
+				j := strings.Index(body, ":")
+				if j < 0 {
+					return fail("onwrite[label] loc: cond")
+				}
+				le, err := parseExpr(body[:j])
+				if err != nil {
+					return fail(err.Error())
+				}
+				ce, err := parseExpr(body[j+1:])
+				if err != nil {
+					return fail(err.Error())
+				}
+				cur.OnWrites = append(cur.OnWrites, &Clause{Kind: "onwrite", Label: label, Props: props, Text: body, Expr: ce, Loc: le, Line: it.line, File: path})
 			case "noinline":
 				cur.NoInline = true
 			case "unroll":
